@@ -6,6 +6,7 @@ import (
 	"math"
 	"os"
 	"strconv"
+	"strings"
 
 	"github.com/Vedant9500/WTF/internal/database"
 )
@@ -61,6 +62,36 @@ func init() {
 				return
 			}
 		}
+		// the TF-IDF re-ranker on its own (its similarities feed the NLP ranking; an ulp of difference
+		// there can be absorbed by large BM25F scores, so it is compared directly as well)
+		if cur.Opts.UseNLP {
+			nq := strings.ToLower(strings.TrimSpace(cur.Query))
+			first, ok := cur.DB.VerifTFIDF(nq)
+			if ok {
+				if len(first) > 1 {
+					mon.Tag("tfidf-ranked")
+				}
+				for k := 0; k < R; k++ {
+					again, _ := cur.DB.VerifTFIDF(nq)
+					same := len(first) == len(again)
+					for i := 0; same && i < len(first); i++ {
+						same = first[i].CommandIndex == again[i].CommandIndex &&
+							math.Float64bits(first[i].Similarity) == math.Float64bits(again[i].Similarity)
+					}
+					if !same {
+						mon.Hit("C02", "nondeterministic-tfidf-ranking", map[string]interface{}{"query": cur.Query, "repetition": k, "n": len(first)})
+						return
+					}
+				}
+			}
+			a := cur.DB.SearchWithNLP(cur.Query, cur.Opts)
+			for k := 0; k < R; k++ {
+				if b := cur.DB.SearchWithNLP(cur.Query, cur.Opts); !sameAnswer(cur.DB, a, cur.DB, b) {
+					mon.Hit("C02", "nondeterministic-ranking", map[string]interface{}{"entry": "SearchWithNLP", "query": cur.Query, "repetition": k})
+					return
+				}
+			}
+		}
 		// an independently built database of the same commands
 		cp := make([]database.Command, len(cur.DB.Commands))
 		copy(cp, cur.DB.Commands)
@@ -110,7 +141,16 @@ func init() {
 			o.Limit = Pick(r, []int{1, 2, 3, 5, 0})
 			o.AllPlatforms = true
 			o.UseNLP = r.Chance(2, 3)
-			reqs = append(reqs, SearchReq{Query: genQuery(r, words), Opts: o})
+			q := genQuery(r, words)
+			if r.Chance(1, 3) && len(cmds) > 0 { // long query covering a whole (short) entry plus extra words
+				c := Pick(r, cmds)
+				q = c.Command + " " + c.Description
+				for j := 0; j < 3 && len(words) > 0; j++ {
+					q += " " + Pick(r, words)
+				}
+				o.UseNLP = true
+			}
+			reqs = append(reqs, SearchReq{Query: q, Opts: o})
 		}
 		extra := []string{}
 		for i := 0; i < 2; i++ {
